@@ -3,7 +3,7 @@ C10 - flags are well-typed, shared with tracts, and raised whenever warranted.
 
 (1) The C03 input space (token soup, damaged seeds, specials x parse modes): typing / pairing /
     hand-down / flawed invariants on the description and on every tract.
-(2) Trigger phrases: 22 phrases (singular / plural / upper-case / wrapped over a line break with extra blanks) inserted at every token boundary of 16 seed descriptions x
+(2) Trigger phrases: 31 phrases (singular / plural / upper-case / wrapped over a line break with extra blanks) inserted at every token boundary of 16 seed descriptions x
     {default, sec_within, both colon modes, every forced layout, ocr_scrub, clean_qq}: the corresponding warning flag
     must be present and one of its context strings must contain the triggering word.
 (4) Repetition: every seed followed by a respelled copy of itself (same sections; also under another township) x 8 modes: the
@@ -20,7 +20,7 @@ from .. import soup
 ID = 'C10'
 LEVEL = 'model_checking'
 TECHNIQUE = ('token-soup / damage-edit enumeration x parse modes with a typing-pairing-hand-down invariant on every result, plus all '
-             'placements of 22 trigger phrases at every token boundary of 16 seed descriptions x 11 modes, plus all sequences of up to '
+             'placements of 31 trigger phrases at every token boundary of 16 seed descriptions x 11 modes, plus all sequences of up to '
              '3/4 re-parse operations on parsed descriptions (same invariant after every sequence)')
 LEVEL_TEXT = ('The flag invariants (lists of str paired one-to-one with 2-tuples of str, description flags present on every tract, '
               'flawed iff error flag, error TRS implies error flag) are evaluated on every result of the C03 space; the trigger clause '
@@ -53,6 +53,15 @@ TRIGGERS = {
     'all existing wellbores': ('well', ['wellbores']),
     'the producing wells': ('well', ['wells']),
     'THE WELLBORE': ('well', ['wellbore']),
+    'excepting therefrom the road': ('less_except', ['except']),
+    'subject to the limitations of record': ('less_except', ['limit']),
+    'LIMITED TO the Bakken': ('less_except', ['limit']),
+    'all Depths': ('depth', ['depth']),
+    'the Surface only': ('depth', ['surface']),
+    'the Three Forks Formation': ('depth', ['formation']),
+    'Including the minerals': ('including', ['includ']),
+    'incl. all improvements': ('including', ['incl']),
+    'INSOFAR AND ONLY INSOFAR as': ('insofar', ['insofar']),
     'only in so \nfar as it covers': ('insofar', ['in so']),
     'in \nso  far as': ('insofar', ['so']),
     'IN SO\n FAR AS': ('insofar', ['in so']),
